@@ -641,7 +641,11 @@ impl Drive<'_> {
             ..Default::default()
         };
         match self.sink {
-            SinkFault::Write(off) => p.fail_at = Some(off),
+            SinkFault::Write(off) => {
+                p.fail_at = Some(off);
+                // every offset is visited: odd ones as a "full disk" (flush stays silent)
+                p.flush_ok_after_write_fault = off % 2 == 1;
+            }
             SinkFault::Flush => p.fail_flush = true,
             _ => {}
         }
